@@ -472,8 +472,14 @@ func childConc(raw json.RawMessage, cio *core.ChildIO) (any, error) {
 			case status != http.StatusOK:
 				addV(fmt.Sprintf("http-input concurrent requests: answered %d to a well-formed completely delivered body", status), "", w(nil))
 			}
+			// (a gzip request reads its header before it takes buffers and a source
+			// id, and the loopback server may start a handler late: only plain
+			// ServeHTTP requests are known to overlap at the barrier)
 			for s := range sids {
-				if o, dup := sidOwner[s]; dup && o != rq.id && !in.Net {
+				if in.Net || c.Gzip {
+					break
+				}
+				if o, dup := sidOwner[s]; dup && o != rq.id {
 					out.Counters["aux:source_id_shared_by_requests_in_flight_together"]++
 				}
 				sidOwner[s] = rq.id
